@@ -20,6 +20,37 @@ PROPS = {
         "assumptions": COMMON_ASSUMPTIONS + ["float32 priorities are totally ordered (no NaN reaches a heap)",
                                              "uint16 loop counters in the kernels: rows shorter than 65536 slots"],
     },
+    "C01": {
+        "harness": "c01", "level": "proof", "category": "proof", "design_ref": "DESIGN.md 5/C01, 4.2", "translators": [],
+        "technique": "Lean 4 proof (well-formedness invariant by induction over every kernel of a literal NN-descent model) + bit-exact differential correspondence of the whole nn_descent + API oracle with float64 metric reference",
+        "text": "Lean theorem descent_wellformed: for every n, k, symmetric distance table, leaf array, generator state, n_iters, stop test, "
+                "max_candidates, thread count, memory mode and well-formed initial heap, the output of the modelled nn_descent has n rows of k "
+                "slots, each sorted closest-first, real entries distinct, in range and first, sentinels (-1, inf) last, and every real entry "
+                "carries the true distance. The model is the code as written (heap layout, exact Tausworthe generator incl. float32 draws, "
+                "thread partition, i<j / k>=j enumerations, <, <= tests, stop test) and is compared bit-for-bit with the real numba nn_descent "
+                "on integer data in both memory modes; the public neighbor_graph of dense / CSR / bit-packed indexes over metric families and "
+                "build configurations (init_graph with holes, init_dist, n<=k, zero rows, duplicates) is checked with the same predicate and an "
+                "independent float64 reference of each metric",
+        "note": TB + "the sampled bit-exact correspondence of the model with pynndescent_.py/utils.py (dense kernels; the sparse twin is covered at API "
+                     "level only); metric values are compared under the float32 tolerance rule of DESIGN C07; the correction step is property C09",
+        "explanation": "invariant theorem over all configurations; whole-pipeline bit-exact correspondence; API predicate with float64 reference",
+        "assumptions": COMMON_ASSUMPTIONS + ["the distance function is symmetric and NaN-free on the data", "init_dist, when supplied and used, is truthful (docstring contract)"],
+    },
+    "C03": {
+        "harness": "c03", "level": "other", "category": "other", "design_ref": "DESIGN.md 5/C03, 7", "translators": [],
+        "technique": "Lean 4 proof of the provable clauses (single-leaf exactness, delivery of every discovered pair to both endpoints) + bit-exact correspondence; recall floors only measured (sampling)",
+        "text": "PARTIAL. Proved in Lean for the literal NN-descent model: single_leaf_exact (when one leaf holds all points the graph after leaf "
+                "initialisation is the exact k-NN graph up to ties, for every n, k, metric), local_join_delivers_both (+_high): every discovered "
+                "pair is offered to both endpoints in both memory modes, rows are exactly the feed of those offers; C13 gives monotone improvement. "
+                "Tied to the code by the bit-exact nn_descent correspondence and an API check that a dataset fitting one leaf yields the exact graph. "
+                "The 90 % / 80 % recall floors are statistical statements about a randomised heuristic: they are MEASURED on seeded well-conditioned "
+                "families (uniform, gaussian, clustered, manifold, sparse topic mixture, binary prototypes x metric families x memory mode x tree_init "
+                "x n_jobs, averaged over repetitions) and reported as sampling, not proof",
+        "note": TB + "the recall floors have no theorem (no executable-model statement expresses them); a measured mean below the floor is reported with the seeded family as replay",
+        "explanation": "partial: two of the three sentences of the property are decided by theorems + correspondence; the recall floors are sampled. "
+                       "Measured recalls of this run are listed under coverage.notes",
+        "assumptions": COMMON_ASSUMPTIONS + ["recall floors: sampling on seeded families, averaged over repetitions; query floor asserted for the default tree-seeded search only"],
+    },
     "C05": {
         "harness": "c05", "level": "proof", "category": "proof", "design_ref": "DESIGN.md 5/C05, 4.6, 2.3", "translators": ["prange"],
         "technique": "Lean 4 proof (schedule independence of non-interfering loops) + decide over per-iteration memory footprints regenerated from the source + bit-for-bit repetition",
@@ -49,6 +80,31 @@ PROPS = {
                      "callable (user-supplied) metrics are outside the tables",
         "explanation": "decide over Gen/Tables.lean (every built-in name x data kind); real round-trips compared bit-for-bit",
         "assumptions": ["pickle/joblib reproduce every attribute other than the re-selected distance function (sampled on real round-trips)"],
+    },
+    "C12": {
+        "harness": "c12", "level": "proof", "category": "proof", "design_ref": "DESIGN.md 5/C12", "translators": [],
+        "technique": "Lean 4 proof (refinement: high-memory applier = low-memory applier under the in_graph invariant, lifted through the whole descent loop) + bit-exact correspondence of both appliers + API equality of both modes",
+        "text": "Lean theorems applyHigh_eq_applyLow (graph AND change count, any thread count, any truthful update list, under the invariant that a "
+                "recorded candidate is one the heap would reject) and descent_low_eq_high (the whole modelled nn_descent returns identical rows and "
+                "generator state in both modes, for every configuration), plus low_memory_thread_count_irrelevant; both real appliers are compared "
+                "bit-for-bit with the model on the same update lists (self pairs, repeats, 1..16 threads) and with each other; real indexes built "
+                "with low_memory=True and False must have identical neighbor_graph arrays, search graphs and answers (dense, CSR, bit-packed)",
+        "note": TB + "the sampled bit-exact correspondence of model and kernels; symmetric NaN-free distance",
+        "explanation": "refinement theorem for all configurations + kernel correspondence + API equality",
+        "assumptions": COMMON_ASSUMPTIONS + ["symmetric distance function"],
+    },
+    "C13": {
+        "harness": "c13", "level": "proof", "category": "proof", "design_ref": "DESIGN.md 5/C13", "translators": [],
+        "technique": "Lean 4 proof (order statistics of every row are non-increasing under every kernel, by induction over the op sequence) + bit-exact correspondence + rank-wise API comparisons",
+        "text": "Lean theorems push_rank_le / descent_rank_le / iteration_rank_le: for every threshold t the number of entries of every row within t "
+                "never decreases under any push, any update application, any initialisation kernel, any iteration and the final sort, for arbitrary "
+                "graphs and update lists (no invariant needed), i.e. the j-th smallest distance of every row is non-increasing; reinsert_eq: re-pushing "
+                "a well-formed row reproduces it (update() starts from the old lists). The real nn_descent is run from supplied heaps and compared "
+                "rank-wise (exact) and with the model; at API level init_graph (with -1 holes, +-init_dist) vs result, n_iters=t vs t+1, and "
+                "neighbor_graph before vs after update(xs_fresh) are compared rank-wise",
+        "note": TB + "the sampled bit-exact correspondence; reported (corrected) distances are compared at API level, monotonicity of corrections is C09",
+        "explanation": "monotonicity theorem for all op sequences + kernel correspondence + rank-wise API comparisons",
+        "assumptions": COMMON_ASSUMPTIONS,
     },
     "C19": {
         "harness": "c19", "translators": ["threads"], "level": "proof", "category": "proof", "design_ref": "DESIGN.md 5/C19, 2.3",
